@@ -247,10 +247,13 @@ def _edit(x, edits):
             inst = sorted(x.blackboxes)[pk % len(x.blackboxes)]
             bb_ = x.blackboxes[inst]
             child = cg.Circuit(name="zz_child")
-            for i_ in sorted(bb_.inputs()):
-                child.add(i_, "input")
-            for o_ in sorted(bb_.outputs()):
-                child.add(o_, "1", output=True)
+            try:
+                for i_ in sorted(bb_.inputs()):
+                    child.add(i_, "input")
+                for o_ in sorted(bb_.outputs()):
+                    child.add(o_, "1", output=True)
+            except ValueError:
+                pass  # a pin listed in both directions: no matching child exists, the fill below is refused
             lib(x.fill_blackbox, inst, child)
         elif op == 13:
             lib(x.add_blackbox, cg.BlackBox("zzt2", ["i"], ["o"]), f"zz_bb{pk}")
